@@ -17,6 +17,19 @@
               length 40 -> EHABIBytecodeDecoder vs `ehabiStd` vs model (IndexError on truncated operands is out of
               the property's domain: compared with the model only)
   prel31    : arm_expand_prel31 on boundary words/places vs the standard formula vs the T3 translation
+  file_attr : (fifth wave) abstract ELF DESCRIPTIONS (C01's ElfDesc: any section order / gaps / table placement, both
+              classes and byte orders, ARM / RISC-V / foreign machines, duplicate names, compressed flag) one or two of
+              whose sections are Spec-encoded attribute sections -> bytes by the Lean Spec ASSEMBLER -> real library:
+              ELFFile(BytesIO(bytes)).get_section(i) and .get_section_by_name(name): class of the object + the tree;
+              vs the whole-file theorems' statement (inside their decided domain) and vs the file-level model
+  file_ehabi: descriptions with an SHT_ARM_EXIDX section and its handler table in another section (before or after it,
+              at an inner offset), a second index section, ET_REL -> assembler -> EHABIInfo(get_section(i), le) and
+              get_ehabi_infos(): num_entry, get_entry(n) for all n and one past, mnmemonic_array(); vs theorem, vs model
+  hist      : call HISTORIES on the attribute API of one file with two attribute sections: section constructors,
+              iter_subsections / iter_subsubsections / iter_attributes generators created, advanced one step at a time in
+              random interleavings, abandoned, list-style properties, explicit seeks and other readers of the file
+              stream in between; after every call the answer AND the position of the shared stream are compared with the
+              machine of Model/AttrHistory.lean; every yielded item is compared with the Spec tree at its path
 """
 import io, itertools, struct
 from common import run_impl, canon, hx, rnd_uint, rnd_bytes, BOUNDARY, classify_exception
@@ -29,10 +42,19 @@ RULE = ('attr: sections with 1..4 vendor subsections x 1..4 sub-subsections (fil
         'and random tails of valid sections; exidx: 1..6 entries of every kind, displacements from '
         '{0, +-1, +-small, +-2^26 neighbourhood, +-(2^30-1), -2^30}, byte-code from the full opcode space; exidx_raw: random '
         'words with forced bit patterns; bc: exhaustive short arrays + random to 40 bytes with long ULEB128 operands. '
+        'attr: in 10% of the cases an attribute with a tag number outside the table is inserted at a random place '
+        '(theorem attrs_unknown_tag: ELFParseError); file_attr: 30% malformed modes — file cut inside the section at a '
+        'random byte / sh_size beyond the end of the file / unknown tag — compared with the malformed-input theorems; '
+        'file_attr / file_ehabi: whole descriptions with shuffled regions, random gaps, optional extra section-header entry '
+        'size, 0..2 filler sections, section order and handler-table placement (before / after / inner offset) random, '
+        'e_type in {EXEC, DYN, REL}, machines ARM / RISCV / X86_64; hist: 25..70 calls per history drawn from '
+        '{open, iter, next (60%), list, seek, poke}, two sections per file, well-formed and mutated contents. '
         'Non-trivial = distinct (stream, bytes, configuration); every case decodes at least one structure.')
 ASSUMPTIONS = ['io.BytesIO read/seek/tell semantics (seek >= 2^63 raises OverflowError)',
-               'ELF container parsing (ELFFile section lookup) is exercised but not modelled: the model is run on the '
-               'file image with the sh_offset/sh_size the container was built with',
+               'section-level streams: the model is run on the file image with the sh_offset/sh_size the container was '
+               'built with; file_* streams: the container is modelled too (C01 mirror of elffile.py)',
+               'hist: the position of the stream after a call that raised is not compared (wherever construct stopped '
+               'reading); it is compared again after the next call that positions the stream absolutely',
                'CPython recursion limit not reached (< 300 nested TAG_ALSO_COMPATIBLE_WITH)',
                'str is compared through its UTF-8 bytes']
 
@@ -118,6 +140,18 @@ def open_section(image, arch):
     from elftools.elf.elffile import ELFFile
     f = ELFFile(io.BytesIO(image))
     return f.get_section_by_name(SECNAME[arch])
+
+
+def tree_of(s, cap):
+    """nested iteration over a section object, in generator order"""
+    out = []
+    for ss in capped(s.iter_subsections(), cap):
+        subs = []
+        for sss in capped(ss.iter_subsubsections(), cap):
+            attrs = [c_attr(a) for a in capped(sss.iter_attributes(), cap)]
+            subs.append(c_subsub(sss, attrs))
+        out.append(c_subsec(ss, subs))
+    return out
 
 
 def observe_nested(image, arch, cap):
@@ -244,11 +278,34 @@ def g_section(rng, arch):
     return sec
 
 
-def attr_check(ctx, stream, case, image, arch, off, size, expect, model):
+ARM_UNKNOWN = [0, 33, 35, 37, 39, 40, 41, 43, 45, 47, 49, 51, 53, 63, 69, 71, 73, 75, 77, 78, 127, 128, 300, 1 << 32]
+RISCV_UNKNOWN = [0, 7, 9, 11, 13, 15, 17, 18, 64, 128, 300, 1 << 32]
+
+
+def inject_unknown(rng, arch, sec):
+    """a copy of `sec` with an attribute whose tag number is not in the architecture's table inserted at a random
+    place (everything before it stays well formed; what follows is whatever was there)"""
+    import copy
+    sec = copy.deepcopy(sec)
+    ss = rng.choice(sec)
+    sss = rng.choice(ss['subs'])
+    t = rng.choice(ARM_UNKNOWN if arch == 'arm' else RISCV_UNKNOWN)
+    sss['attrs'].insert(rng.randrange(len(sss['attrs']) + 1), {'t': gU(rng, t), 'v': g_simple(rng, rng.random() < 0.3)})
+    return sec
+
+
+def attr_check(ctx, stream, case, image, arch, off, size, expect, model, lv_model=None):
     out = ctx.out
     cap = len(image) + 2
     impl = run_obs(lambda: observe_nested(image, arch, cap))
     out.case(case)
+    if lv_model is not None and expect is None:
+        # malformed / out-of-domain contents: the levelwise observation against the levelwise model
+        lv = run_obs(lambda: observe_levelwise(image, arch, cap))
+        out.count('levelwise:' + ('ok' if 'ok' in lv_model else lv_model['err']))
+        if lv != lv_model:
+            out.violation('correspondence', stream, dict(case, pattern='levelwise'), got=lv, model=lv_model)
+            return
     if expect is not None:
         if impl != {'ok': expect}:
             out.violation('property', stream, case, expect=expect, got=impl, model=model)
@@ -257,6 +314,9 @@ def attr_check(ctx, stream, case, image, arch, off, size, expect, model):
         lv = run_obs(lambda: observe_levelwise(image, arch, cap))
         if lv != {'ok': expect}:
             out.violation('property', stream, dict(case, pattern='levelwise'), expect=expect, got=lv, model=model)
+            return
+        if lv_model is not None and lv != lv_model:
+            out.violation('correspondence', stream, dict(case, pattern='levelwise'), got=lv, model=lv_model)
             return
         cn = run_obs(lambda: observe_counts(image, arch))
         if cn != {'ok': counts_of(expect)}:
@@ -275,6 +335,8 @@ def run_attr(ctx):
         le = rng.random() < 0.6
         cls = rng.choice([32, 64]) if arch == 'riscv' else rng.choice([32, 32, 64])
         sec = g_section(rng, arch)
+        if rng.random() < 0.1:
+            sec = inject_unknown(rng, arch, sec)
         cfgs.append((arch, le, cls))
         reqs.append({'p': 'C20', 'k': 'attr_enc', 'arch': arch, 'le': le, 'sec': sec})
     encs = ask(ctx, reqs)
@@ -295,11 +357,21 @@ def run_attr(ctx):
         case = {'arch': arch, 'le': le, 'cls': cls, 'sec': rq['sec'], 'content': r['bytes']}
         nsub = len(rq['sec'])
         ctx.out.count('attr:%s:%s:%d:subsecs=%d' % (arch, 'le' if le else 'be', cls, min(nsub, 3)))
-        if not r['wf']:
+        if r.get('bad'):
+            # the first malformation is an unknown tag (theorem attrs_unknown_tag): ELFParseError, nothing else
+            ctx.out.count('attr:unknown-tag')
+            impl = run_obs(lambda: observe_nested(image, arch, len(image) + 2))
+            ctx.out.case(case)
+            if impl != {'err': 'elfParseError'}:
+                ctx.out.violation('property', 'attr', dict(case, pattern='unknown-tag'), expect={'err': 'elfParseError'}, got=impl, model=m['model'])
+            elif impl != m['model']:
+                ctx.out.violation('correspondence', 'attr', case, got=impl, model=m['model'])
+        elif not r['wf']:
             ctx.out.count('attr:not-wf')
-            attr_check(ctx, 'attr', case, image, arch, off, size, None, m['model'])
+            attr_check(ctx, 'attr', case, image, arch, off, size, None, m['model'], m.get('levelwise'))
         else:
-            attr_check(ctx, 'attr', case, image, arch, off, size, r['expect'], m['model'])
+            attr_check(ctx, 'attr', case, image, arch, off, size, r['expect'], m['model'], m.get('levelwise'))
+    ctx.c20_wf = [(k[0], k[1], k[2], k[3]['sec'], bytes.fromhex(k[4]['bytes']), k[4]['expect']) for k in keep if k[4]['wf']]
     return [(k[0], k[1], k[2], bytes.fromhex(k[4]['bytes'])) for k in keep]
 
 
@@ -345,7 +417,7 @@ def run_attr_raw(ctx, seeds):
         case = {'arch': arch, 'le': le, 'cls': cls, 'content': hx(content)}
         mm = m['model']
         ctx.out.count('attr_raw:' + ('ok' if 'ok' in mm else mm['err']))
-        attr_check(ctx, 'attr_raw', case, image, arch, rq['off'], rq['size'], None, mm)
+        attr_check(ctx, 'attr_raw', case, image, arch, rq['off'], rq['size'], None, mm, m.get('levelwise'))
 
 
 # ----------------------------------------------------------------------------- EHABI
@@ -635,6 +707,576 @@ def run_prel31(ctx):
             ctx.out.violation('correspondence', 'prel31', case, got=got, model=r['model'])
 
 
+# ----------------------------------------------------------------------------- whole files (fifth wave)
+import random as _random
+
+SHT_ATTR, SHT_EXIDX = 0x70000003, 0x70000001
+MACH = {'arm': (EB.EM_ARM, 'EM_ARM'), 'riscv': (EB.EM_RISCV, 'EM_RISCV'), 'x86': (EB.EM_X86_64, 'EM_X86_64')}
+
+
+def Rec(**kw):
+    return {'r': [[k, v] for k, v in kw.items()]}
+
+
+def make_desc(seed, cls, le, mach, e_type, secs, last=None):
+    """An `ElfDesc` (JSON form of Driver/C01.lean).  secs: dicts name(bytes) type body(bytes) [flags] [size] [link] [align]
+    in section-table order; a null section and a `.shstrtab` (anywhere in the table) are added.  Every layout decision
+    (region order, gaps, entry size, string-table position) is drawn from `seed` alone, so the same seed with bodies of
+    the same lengths gives the same offsets.  Returns (ast, idx, off): idx[k] / off[k] = table index / sh_offset of secs[k]."""
+    rng = _random.Random(seed)
+    shsz, ehsize = (40, 52) if cls == 32 else (64, 64)
+    allsecs = [dict(name=b'', type=0, body=None, size=0, align=0, flags=0)]
+    strpos = rng.randrange(1, len(secs) + 2)
+    idx = {}
+    for k, sc in enumerate(secs):
+        if len(allsecs) == strpos:
+            allsecs.append(dict(name=b'.shstrtab', type=3, body=None, align=1, flags=0))
+        idx[k] = len(allsecs)
+        allsecs.append(dict(sc))
+    if not any(x['name'] == b'.shstrtab' for x in allsecs):
+        strpos = len(allsecs)
+        allsecs.append(dict(name=b'.shstrtab', type=3, body=None, align=1, flags=0))
+    tab = bytearray(b'\0')
+    name_off = {b'': 0}
+    for sc in allsecs:
+        if sc['name'] not in name_off:
+            name_off[sc['name']] = len(tab)
+            tab += sc['name'] + b'\0'
+    allsecs[strpos]['body'] = bytes(tab)
+    shentsize = shsz + rng.choice([0, 0, 8])
+    regions = [('body', i) for i in range(1, len(allsecs))] + [('sh', None)]
+    rng.shuffle(regions)
+    if last is not None:                       # the body of secs[last] is the last region of the file
+        regions.remove(('body', idx[last]))
+        regions.append(('body', idx[last]))
+    pos = ehsize + rng.choice([0, 0, 4, 12])
+    shoff = 0
+    for kind, i in regions:
+        pos += rng.choice([0, 0, 0, 1, 3, 4, 8, 17])
+        if kind == 'sh':
+            shoff = pos
+            pos += shentsize * len(allsecs)
+        else:
+            allsecs[i]['offset'] = pos
+            pos += len(allsecs[i]['body'] or b'')
+    sections = []
+    for sc in allsecs:
+        body = sc.get('body')
+        size = sc['size'] if sc.get('size') is not None else len(body or b'')
+        flags = sc['flags'] if sc.get('flags') is not None else rng.choice([0, 2, 3, 0x30])
+        sections.append({'name': hx(sc['name']), 'nameOff': name_off[sc['name']],
+                         'hdr': Rec(sh_type=sc['type'], sh_flags=flags, sh_addr=rng.choice([0, 0x1000, 0x8000]),
+                                    sh_offset=sc.get('offset', 0), sh_size=size, sh_link=sc.get('link', 0), sh_info=0,
+                                    sh_addralign=sc['align'] if sc.get('align') is not None else rng.choice([0, 1, 4, 8]), sh_entsize=0),
+                         'body': hx(body) if body is not None else None})
+    ast = {'cls': cls, 'le': le, 'mclass': MACH[mach][1], 'solaris': False, 'core': False,
+           'ehdr': Rec(EI_VERSION=1, EI_OSABI=0, EI_ABIVERSION=0, e_type=e_type, e_machine=MACH[mach][0], e_version=1,
+                       e_entry=0, e_flags=0, e_ehsize=ehsize),
+           'shoff': shoff, 'phoff': 0, 'shentsize': shentsize, 'phentsize': 0,
+           'sections': sections, 'segments': [], 'shstrndx': strpos}
+    return ast, idx, {k: allsecs[idx[k]]['offset'] for k in idx}
+
+
+def ask_files(ctx, reqs, limit=30000):
+    """batches small enough never to fill both pipes (requests and replies carry whole file images)"""
+    import json
+    out, group, size = [], [], 0
+    for r in reqs:
+        n = 2 * len(json.dumps(r, separators=(',', ':'))) + 4000
+        if group and size + n > limit:
+            out += ctx.driver.ask_many(group)
+            group, size = [], 0
+        group.append(r)
+        size += n
+    if group:
+        out += ctx.driver.ask_many(group)
+    return out
+
+
+def fillers(rng):
+    return [dict(name=rng.choice([b'.text', b'.data', b'.fill']), type=1, body=rnd_bytes(rng, rng.choice([1, 5, 16, 33])))
+            for _ in range(rng.choice([0, 1, 1, 2]))]
+
+
+# ----------------------------------------------------------------------------- file_attr
+def impl_file_attr(data, q):
+    """ELFFile(BytesIO(data)).get_section(i) / .get_section_by_name(name): [class name, tree] (None: no such name)"""
+    from elftools.elf.elffile import ELFFile
+
+    def f():
+        ef = ELFFile(io.BytesIO(data))
+        if 'name' in q:
+            sec = ef.get_section_by_name(bytes.fromhex(q['name']).decode('utf-8'))
+            if sec is None:
+                return None
+        else:
+            sec = ef.get_section(q['i'])
+        return [type(sec).__name__, tree_of(sec, len(data) + 2)]
+    return run_obs(f)
+
+
+def run_file_attr(ctx):
+    rng = ctx.rng('file_attr')
+    n = ctx.budget(200, 8000)
+    pool = ctx.c20_wf
+    groups = {}
+    for x in pool:
+        groups.setdefault((x[0], x[1]), []).append(x)
+    # plan; the sections with an injected unknown tag need the Spec encoder first
+    plans, encreqs = [], []
+    for _ in range(n):
+        arch, le, _cls, sec, content, _exp = rng.choice(pool)
+        mode = rng.choice(['plain'] * 7 + ['trunc', 'overrun', 'unknown'])
+        pl = {'arch': arch, 'le': le, 'sec': sec, 'content': content, 'mode': mode}
+        if mode == 'unknown':
+            pl['sec'] = inject_unknown(rng, arch, sec)
+            pl['enc'] = len(encreqs)
+            encreqs.append({'p': 'C20', 'k': 'attr_enc', 'arch': arch, 'le': le, 'sec': pl['sec']})
+        plans.append(pl)
+    encs = ask(ctx, encreqs)
+    reqs, metas = [], []
+    for pl in plans:
+        arch, le, sec, content, mode = pl['arch'], pl['le'], pl['sec'], pl['content'], pl['mode']
+        if mode == 'unknown':
+            content = bytes.fromhex(encs[pl['enc']]['bytes'])
+        cls = rng.choice([32, 64])
+        mach = arch if rng.random() < 0.88 else 'x86'      # foreign machine: 0x70000003 is an ordinary section there
+        name1 = SECNAME[arch].encode()
+        secs = fillers(rng)
+        flags = 0 if rng.random() < 0.9 else 0x800          # SHF_COMPRESSED: outside the theorems' domain
+        main = dict(name=name1, type=SHT_ATTR, body=content, flags=flags, sec=sec)
+        cut = None
+        if mode == 'trunc':                                 # the file ends `cut` bytes into the section
+            cut = rng.choice([1, 2, 5, len(content) - 1, rng.randrange(1, len(content)), rng.randrange(1, len(content))])
+            cut = max(1, min(cut, len(content) - 1))
+            main.update(body=content[:cut], size=len(content))
+        elif mode == 'overrun':                             # the file ends with the section, sh_size claims more
+            main.update(size=len(content) + rng.choice([1, 2, 4, 5, 100, 0xffff]))
+        attrs = [main]
+        if rng.random() < 0.45:
+            _, _, _, sec2, content2, _ = rng.choice(groups[(arch, le)])
+            attrs.insert(0, dict(name=rng.choice([name1, b'.attrs2']), type=SHT_ATTR, body=content2, flags=0, sec=sec2))
+        for a in attrs:
+            secs.insert(rng.randrange(len(secs) + 1), a)
+        at = [next(i for i, sc in enumerate(secs) if sc is a) for a in attrs]
+        if rng.random() < 0.3:
+            secs.append(dict(name=b'.bss', type=8, body=None, size=rng.choice([0, 16, 4096])))
+        last = at[-1] if mode in ('trunc', 'overrun') and rng.random() < 0.9 else None
+        ast, idx, off = make_desc(rng.getrandbits(48), cls, le, mach, rng.choice([EB.ET_EXEC, EB.ET_DYN, EB.ET_REL]),
+                                  [{k: v for k, v in sc.items() if k != 'sec'} for sc in secs], last=last)
+        qs = []
+        for k, a in zip(at, attrs):
+            if a is main and mode != 'plain':
+                q = {'t': mode, 'arch': arch, 'i': idx[k], 'sec': a['sec']}
+                if cut is not None:
+                    q['cut'] = cut
+                qs.append(q)
+                continue
+            qs.append({'t': 'sec', 'arch': arch, 'i': idx[k], 'sec': a['sec']})
+            lastname = max(idx[k2] for k2, a2 in zip(at, attrs) if a2['name'] == a['name'])
+            if lastname == idx[k]:
+                qs.append({'t': 'name', 'arch': arch, 'i': idx[k], 'name': hx(a['name']), 'sec': a['sec']})
+        r = rng.random()
+        nsec = len(ast['sections'])
+        if r < 0.3:
+            qs.append({'t': 'any', 'i': rng.choice([0, ast['shstrndx'], nsec - 1, nsec, nsec + 3])})
+        elif r < 0.45:
+            qs.append({'t': 'any', 'name': hx(rng.choice([b'.nosuch', b'.shstrtab', b'.text', b'']))})
+        reqs.append({'p': 'C20', 'k': 'file_attr', 'ast': ast, 'tail': 0 if last is not None else rng.choice([0, 0, 7]), 'q': qs})
+        metas.append({'arch': arch, 'mach': mach, 'le': le, 'cls': cls, 'nattr': len(attrs), 'flags': flags, 'mode': mode,
+                      'dup': len(attrs) == 2 and attrs[0]['name'] == attrs[1]['name']})
+    replies = ask_files(ctx, reqs)
+    for rq, r, m in zip(reqs, replies, metas):
+        if 'fatal' in r:
+            raise RuntimeError('driver: %s' % r['fatal'])
+        if 'bytes' not in r:
+            ctx.out.count('file_attr:not-encodable')
+            continue
+        data = bytes.fromhex(r['bytes'])
+        ctx.out.case({'m': m, 'n': len(data), 'sha': hx(data[-40:]), 'q': len(rq['q'])})
+        ctx.out.count('file_attr:%s/%s:%s:%d:%s' % (m['arch'], m['mach'], 'le' if m['le'] else 'be', m['cls'], 'wfZ' if r['wf'] else 'not-wf'))
+        ctx.out.count('file_attr:sections=%d%s%s:%s' % (m['nattr'], '/dup-name' if m['dup'] else '', '/compressed' if m['flags'] else '', m['mode']))
+        for qi, (q, a) in enumerate(zip(rq['q'], r['q'])):
+            impl = impl_file_attr(data, q)
+            dom = bool(r['wf'] and a['dom'])
+            ctx.out.count('file_attr:%s:%s' % (q['t'], 'theorem-domain' if dom else 'model-only'))
+            if q['t'] == 'any':
+                ctx.out.count('file_attr:any:' + ('ok' if 'ok' in impl else impl['err']))
+            full = {'req': rq, 'qi': qi, 'file': r['bytes']}
+            want = a['expect_res'] if 'expect_res' in a else {'ok': a.get('expect')}
+            if dom and impl != want:
+                ctx.out.violation('property', 'file_attr', full, view=q['t'], expect=want, got=impl, model=a['model'])
+            elif impl != a['model']:
+                ctx.out.violation('correspondence', 'file_attr', full, view=q['t'], got=impl, model=a['model'])
+
+
+# ----------------------------------------------------------------------------- file_ehabi
+def impl_file_ehabi(data, i, ns, k):
+    """EHABIInfo(get_section(i), little_endian) and get_ehabi_infos()[k]: num_entry, get_entry(n) (+ mnemonics)"""
+    from elftools.elf.elffile import ELFFile
+    from elftools.ehabi.ehabiinfo import EHABIInfo
+    out = {}
+    ef = ELFFile(io.BytesIO(data))
+
+    def entries(info):
+        res = []
+        for n in ns:
+            def one():
+                e = info.get_entry(n)
+                return {'entry': c_entry(e), 'mn': c_mn(e.mnmemonic_array())}
+            res.append({'full': run_obs(one), 'entry': run_obs(lambda: c_entry(info.get_entry(n)))})
+        return res
+    direct = run_obs(lambda: EHABIInfo(ef.get_section(i), ef.little_endian))
+    if 'ok' in direct:
+        info = direct['ok']
+        out['num'] = run_obs(info.num_entry)
+        out['direct'] = entries(info)
+    else:
+        out['num'] = direct
+        out['direct'] = [{'full': direct, 'entry': direct} for _ in ns]
+
+    def infos_summary():
+        infos = ef.get_ehabi_infos()
+        return None if infos is None else [[hx(x.section_name().encode('utf-8')), x.section_offset(), x.num_entry()] for x in infos]
+    out['infos'] = run_obs(infos_summary)
+    if k is not None:
+        got = run_obs(lambda: ef.get_ehabi_infos()[k])
+        out['via_infos'] = entries(got['ok']) if 'ok' in got else [{'full': got, 'entry': got} for _ in ns]
+
+    def oob():
+        infos = ef.get_ehabi_infos()
+        e = infos[len(infos) if infos is not None else 0].get_entry(0)
+        return {'entry': c_entry(e), 'mn': c_mn(e.mnmemonic_array())}
+    out['oob'] = run_obs(oob)
+    return out
+
+
+def ehabi_secs(c, exidx, extab):
+    secs = [dict(s) for s in c['fill']]
+    ex = dict(name=b'.ARM.exidx', type=SHT_EXIDX, body=exidx, flags=0x82, align=4)
+    xt = dict(name=b'.ARM.extab', type=1, body=c['xprebytes'] + extab + c['xpostbytes'], flags=2, align=4)
+    order = [ex, xt] if c['exfirst'] else [xt, ex]
+    if c['second'] is not None:
+        order.insert(c['secondpos'], dict(name=b'.ARM.exidx.text.f', type=SHT_EXIDX, body=c['second'], flags=0x82, align=4))
+    at = min(c['at'], len(secs))
+    secs[at:at] = order
+    return secs, next(i for i, sc in enumerate(secs) if sc is ex), next(i for i, sc in enumerate(secs) if sc is xt)
+
+
+def run_file_ehabi(ctx):
+    rng = ctx.rng('file_ehabi')
+    n = ctx.budget(180, 7000)
+    cases = []
+    for _ in range(n):
+        le = rng.random() < 0.6
+        es = [g_entry(rng) for _ in range(rng.choice([1, 2, 3, 4, 6]))]
+        second = None
+        if rng.random() < 0.35:
+            second = b''.join(struct.pack('<II' if le else '>II', g_disp(rng) & 0x7fffffff, 1) for _ in range(rng.choice([0, 1, 2])))
+        c = {'le': le, 'cls': rng.choice([32, 32, 32, 64]), 'mach': 'arm' if rng.random() < 0.92 else 'x86',
+             'e_type': rng.choice([EB.ET_EXEC, EB.ET_DYN, EB.ET_DYN, EB.ET_DYN, EB.ET_REL]), 'es': es,
+             'xprebytes': rnd_bytes(rng, rng.choice([0, 0, 4, 8, 3])), 'xpostbytes': rnd_bytes(rng, rng.choice([0, 0, 4, 5])),
+             'fill': fillers(rng), 'exfirst': rng.random() < 0.5, 'second': second, 'secondpos': rng.randrange(3),
+             'at': rng.randrange(3), 'seed': rng.getrandbits(48), 'tail': rng.choice([0, 0, 7])}
+        nwords = sum(entry_words(e) for e in es)
+        secs, ei, xi = ehabi_secs(c, bytes(8 * len(es)), bytes(4 * nwords))
+        _, idx, off = make_desc(c['seed'], c['cls'], le, c['mach'], c['e_type'], secs)
+        c.update(exoff=off[ei], taboff=off[xi] + len(c['xprebytes']), i=idx[ei], x=idx[xi])
+        cases.append(c)
+    encs = ask(ctx, [{'p': 'C20', 'k': 'ehabi_enc', 'le': c['le'], 'entries': c['es'], 'exidx_off': c['exoff'], 'tab0': c['taboff']}
+                     for c in cases])
+    reqs = []
+    for c, r in zip(cases, encs):
+        if 'fatal' in r:
+            raise RuntimeError('driver: %s' % r['fatal'])
+        secs, ei, xi = ehabi_secs(c, bytes.fromhex(r['exidx']), bytes.fromhex(r['extab']))
+        ast, idx, off = make_desc(c['seed'], c['cls'], c['le'], c['mach'], c['e_type'], secs)
+        assert (off[ei], off[xi] + len(c['xprebytes']), idx[ei], idx[xi]) == (c['exoff'], c['taboff'], c['i'], c['x'])
+        reqs.append({'p': 'C20', 'k': 'file_ehabi', 'ast': ast, 'tail': c['tail'], 'i': c['i'], 'x': c['x'],
+                     'xpre': len(c['xprebytes']), 'entries': c['es'], 'ns': list(range(len(c['es']) + 1))})
+    replies = ask_files(ctx, reqs)
+    for c, rq, r in zip(cases, reqs, replies):
+        if 'fatal' in r:
+            raise RuntimeError('driver: %s' % r['fatal'])
+        if 'bytes' not in r:
+            ctx.out.count('file_ehabi:not-encodable')
+            continue
+        judge_file_ehabi(ctx, c, rq, r)
+
+
+def judge_file_ehabi(ctx, c, rq, r):
+    data = bytes.fromhex(r['bytes'])
+    es, ns = rq['entries'], rq['ns']
+    impl = impl_file_ehabi(data, rq['i'], ns, r['k'])
+    dom = bool(r['wf'] and r['dom'])
+    ctx.out.count('file_ehabi:%s:%s:%d:%s:%s' % (c['mach'], 'le' if c['le'] else 'be', c['cls'], 'wfZ' if r['wf'] else 'not-wf',
+                                                 'theorem-domain' if dom else 'model-only'))
+    ctx.out.count('file_ehabi:extab-%s:xpre=%d' % ('after' if c['taboff'] > c['exoff'] else 'before', len(c['xprebytes'])))
+    ctx.out.count('file_ehabi:infos=%d:%s' % (r['nidx'], 'ET_REL' if c['e_type'] == EB.ET_REL else 'exec/dyn'))
+    full = {'req': rq, 'file': r['bytes'], 'k': r['k']}
+    bad = []
+    if dom and impl['num'] != {'ok': len(es)}:
+        bad.append(('property', 'num_entry', {'ok': len(es)}, impl['num'], r['num']))
+    if impl['num'] != r['num']:
+        bad.append(('correspondence', 'num_entry', None, impl['num'], r['num']))
+    routes = [('direct', impl['direct'], r['model'])]
+    if r['k'] is not None:
+        routes.append(('via_infos', impl['via_infos'], r['model_infos']))
+    for route, got, model in routes:
+        indom = dom and (route == 'direct' or r['notrel'])
+        for i, n_ in enumerate(ns):
+            ctx.out.case({'le': c['le'], 'e': es[i] if i < len(es) else None, 'route': route, 'place': c['exoff'] + 8 * i, 'tab': c['taboff'],
+                          'cls': c['cls']})
+            if i < len(es):
+                ex = r['expect'][i]
+                ctx.out.count('file_ehabi:%s:%s' % (es[i]['k'], 'theorem-domain' if indom else 'model-only'))
+                if indom:
+                    if got[i]['entry'] != {'ok': ex['entry']}:
+                        bad.append(('property', '%s get_entry(%d)' % (route, n_), ex['entry'], got[i]['entry'], model[i]))
+                        continue
+                    if ex['codeok'] and got[i]['full'] != {'ok': {'entry': ex['entry'], 'mn': ex['mn']}}:
+                        bad.append(('property', '%s get_entry(%d) + mnemonics' % (route, n_), ex['mn'], got[i]['full'], model[i]))
+                        continue
+            elif indom and got[i]['entry'] != {'err': 'indexError'}:
+                bad.append(('property', '%s get_entry(len)' % route, {'err': 'indexError'}, got[i]['entry'], model[i]))
+                continue
+            if got[i]['full'] != model[i]:
+                bad.append(('correspondence', '%s get_entry(%d)' % (route, n_), None, got[i]['full'], model[i]))
+    if dom and r['notrel'] and r['k'] is not None:
+        want = [hx(b'.ARM.exidx'), c['exoff'], len(es)]
+        if 'ok' not in impl['infos'] or impl['infos']['ok'] is None or impl['infos']['ok'][r['k']] != want:
+            bad.append(('property', 'get_ehabi_infos', want, impl['infos'], r['infos']))
+    if impl['infos'] != r['infos']:
+        bad.append(('correspondence', 'get_ehabi_infos', None, impl['infos'], r['infos']))
+    if impl['oob'] != r['model_infos_oob']:
+        bad.append(('correspondence', 'get_ehabi_infos()[len]', None, impl['oob'], r['model_infos_oob']))
+    for kind, what, expect, got, model in bad[:1]:
+        ctx.out.violation(kind, 'file_ehabi', full, what=what, expect=expect, got=got, model=model)
+    return bad
+
+
+# ----------------------------------------------------------------------------- hist
+def c_item(x):
+    from elftools.elf.sections import Attribute, AttributesSubsection, AttributesSubsubsection
+    if isinstance(x, AttributesSubsection):
+        return {'subsec': [x.offset, x.header['length'], cv(x.header['vendor_name']), x.subsubsec_start]}
+    if isinstance(x, AttributesSubsubsection):
+        return {'subsub': [x.offset, c_attr(x.header), x.attr_start]}
+    if isinstance(x, Attribute):
+        return {'attr': c_attr(x)}
+    raise TypeError(type(x))
+
+
+def children_iter(obj):
+    from elftools.elf.sections import AttributesSection, AttributesSubsection
+    if isinstance(obj, AttributesSection):
+        return obj.iter_subsections()
+    if isinstance(obj, AttributesSubsection):
+        return obj.iter_subsubsections()
+    return obj.iter_attributes()
+
+
+def expected_at(tree, path):
+    """the Spec's children of the object at `path` ((), (i,), (i, j)) of a section's tree, in wire form
+    (offsets are not part of the Spec observation: None)"""
+    if len(path) == 0:
+        return [('subsec', dict(ss['r'])['length'], dict(ss['r'])['vendor_name']) for ss in tree]
+    subs = dict(tree[path[0]]['r'])['subsubsections']
+    if len(path) == 1:
+        return [('subsub', {'r': [[k, v] for k, v in x['r'] if k != 'attributes']}) for x in subs]
+    return [('attr', a) for a in dict(subs[path[1]]['r'])['attributes']]
+
+
+def item_matches(want, got):
+    if want[0] == 'subsec':
+        return 'subsec' in got and got['subsec'][1] == want[1] and got['subsec'][2] == want[2]
+    if want[0] == 'subsub':
+        return 'subsub' in got and got['subsub'][1] == want[1]
+    return got == {'attr': want[1]}
+
+
+def run_hist_case(c, steps_model=None):
+    """Runs the history `c['ops']` (or, when it is None, draws one while running) on the real library.
+    Returns (ops, answers, positions, property problems)."""
+    from elftools.elf.elffile import ELFFile
+    arch = c['arch']
+    mach = EB.EM_ARM if arch == 'arm' else EB.EM_RISCV
+    img = EB.ElfImage(cls=c['cls'], le=c['le'], e_type=EB.ET_EXEC, e_machine=mach)
+    t = img.add_section('.text', EB.SHT_PROGBITS, data=b'\x00' * c['pad'], flags=6, addr=0x1000)
+    ia = img.add_section(SECNAME[arch], EB.SHT_ARM_ATTRIBUTES, data=c['a'])
+    img.add_section('.data', EB.SHT_PROGBITS, data=b'\x01' * 9, flags=3)
+    ib = img.add_section('.attrs2', EB.SHT_ARM_ATTRIBUTES, data=c['b'])
+    ic = img.add_section('.comment', EB.SHT_PROGBITS, data=b'tail\x00')
+    data = img.build()
+    secinfo = {'A': (ia, img.offsets[ia], len(c['a']), c.get('ta')), 'B': (ib, img.offsets[ib], len(c['b']), c.get('tb'))}
+    f = ELFFile(io.BytesIO(data))
+    stream = f.stream
+    cap = len(data) + 2
+    rng = c.get('rng')
+    fixed = c.get('ops')
+    ops, answers, poss, problems = [], [], [], []
+    handed = []          # per op: the objects the answer handed out [(object, tree, path)]
+    gens = []            # [generator, tree, path of the parent, items yielded so far, live]
+    pos0 = stream.tell()
+    nsteps = len(fixed) if fixed is not None else c['len']
+    for step in range(nsteps):
+        if fixed is not None:
+            op = fixed[step]
+        else:
+            objs = [(j, k) for j, h in enumerate(handed) for k in range(len(h))]
+            live = [g for g in range(len(gens)) if gens[g][4]]
+            r = rng.random()
+            if not objs or r < 0.08:
+                which = rng.choice('AB')
+                op = {'o': 'open', 'arch': arch, 'off': secinfo[which][1], 'size': secinfo[which][2], 'which': which}
+            elif r < 0.22:
+                op = {'o': 'iter', 'ref': list(rng.choice(objs))}
+            elif r < 0.78 and gens:
+                # mostly live generators; sometimes one that is exhausted / raised
+                op = {'o': 'next', 'g': rng.choice(live) if live and rng.random() < 0.93 else rng.randrange(len(gens))}
+            elif r < 0.84:
+                op = {'o': 'list', 'ref': list(rng.choice(objs))}
+            elif r < 0.92:
+                op = {'o': 'seek', 'n': rng.choice([0, 1, secinfo['A'][1], secinfo['B'][1] + 3, len(data), len(data) + 9, rng.randrange(len(data))])}
+            else:
+                op = {'o': 'poke', 'sec': rng.choice([t, ic, len(img.sections)])}
+        out_objs = []
+        if op['o'] == 'open':
+            which = op['which']
+            res = run_obs(lambda: f.get_section(secinfo[which][0]))
+            if 'ok' in res:
+                s = res['ok']
+                out_objs.append((s, secinfo[which][3], ()))
+                ans = {'sec': [s['sh_offset'], s.data_size, s.subsec_start]}
+            else:
+                ans = res
+        elif op['o'] == 'iter':
+            obj, tree, path = handed[op['ref'][0]][op['ref'][1]]
+            gens.append([children_iter(obj), tree, path, 0, True])
+            ans = {'gen': len(gens) - 1}
+        elif op['o'] == 'next':
+            g = gens[op['g']]
+            try:
+                x = next(g[0])
+                ans = c_item(x)
+                want = expected_at(g[1], g[2]) if g[1] is not None else None
+                if want is not None and (g[3] >= len(want) or not item_matches(want[g[3]], ans)):
+                    problems.append((step, want[g[3]] if g[3] < len(want) else 'stop', ans))
+                if 'attr' not in ans:
+                    out_objs.append((x, g[1], g[2] + (g[3],)))
+                g[3] += 1
+            except StopIteration:
+                ans = 'stop'
+                if g[4] and g[1] is not None and g[3] != len(expected_at(g[1], g[2])):
+                    want = expected_at(g[1], g[2])
+                    problems.append((step, want[g[3]] if g[3] < len(want) else 'stopped earlier', ans))
+                g[4] = False
+            except RecursionError:
+                ans, g[4] = {'err': 'outOfFuel'}, False
+            except Exception as e:      # noqa: BLE001
+                ans, g[4] = {'err': classify_exception(e)}, False
+                if g[1] is not None:
+                    problems.append((step, 'no exception', ans))
+        elif op['o'] == 'list':
+            obj, tree, path = handed[op['ref'][0]][op['ref'][1]]
+            res = run_obs(lambda: [x for x in capped(children_iter(obj), cap)])
+            if 'ok' in res:
+                ans = {'items': [c_item(x) for x in res['ok']]}
+                for k, x in enumerate(res['ok']):
+                    if 'attr' not in ans['items'][k]:
+                        out_objs.append((x, tree, path + (k,)))
+                if tree is not None:
+                    want = expected_at(tree, path)
+                    if len(want) != len(ans['items']) or not all(item_matches(w, a) for w, a in zip(want, ans['items'])):
+                        problems.append((step, want, ans))
+            else:
+                ans = res
+                if tree is not None:
+                    problems.append((step, 'no exception', ans))
+        elif op['o'] == 'seek':
+            stream.seek(op['n'])
+            ans = None
+        else:
+            # any other reader of the file's stream: on the wire it is the seek to wherever it left the stream
+            try:
+                f.get_section(op['sec']).data()
+            except Exception:           # noqa: BLE001
+                pass
+            op = {'o': 'seek', 'n': stream.tell(), 'poke': True}
+            ans = None
+        ops.append(op)
+        answers.append(ans)
+        poss.append(stream.tell())
+        handed.append(out_objs)
+    return data, pos0, ops, answers, poss, problems
+
+
+def hist_req(c, data, pos0, ops):
+    return {'p': 'C20', 'k': 'hist', 'arch': c['arch'], 'le': c['le'], 'cls': c['cls'], 'hex': hx(data), 'pos': pos0,
+            'ops': [{k: v for k, v in op.items() if k not in ('which', 'poke')} for op in ops]}
+
+
+def hist_compare(ops, answers, poss, steps):
+    """first step at which the library and the machine differ: (step, what, got, model)"""
+    for j, (op, a, p, m) in enumerate(zip(ops, answers, poss, steps)):
+        if m.get('badref'):
+            return (j, 'the model never handed out the object this call refers to', a, m)
+        if a != m['a']:
+            return (j, 'answer', a, m['a'])
+        if m['known'] and p != m['pos']:
+            return (j, 'stream position', p, m['pos'])
+    return None
+
+
+def run_hist(ctx):
+    rng = ctx.rng('hist')
+    n = ctx.budget(150, 6000)
+    pool = ctx.c20_wf
+    groups = {}
+    for x in pool:
+        groups.setdefault((x[0], x[1]), []).append(x)
+    cases, reqs, runs = [], [], []
+    for _ in range(n):
+        arch, le, _cls, _sec, a, ta = rng.choice(pool)
+        _, _, _, _, b, tb = rng.choice(groups[(arch, le)])
+        if rng.random() < 0.12:
+            a, ta = mutate(rng, a), None
+        if rng.random() < 0.3:
+            b, tb = mutate(rng, b), None
+        c = {'arch': arch, 'le': le, 'cls': rng.choice([32, 64]) if arch == 'riscv' else rng.choice([32, 32, 64]),
+             'pad': rng.choice([0, 1, 5, 64]), 'a': a, 'b': b, 'ta': ta, 'tb': tb, 'len': rng.choice([25, 40, 70]),
+             'rng': _random.Random(rng.getrandbits(48))}
+        data, pos0, ops, answers, poss, problems = run_hist_case(c)
+        cases.append(c)
+        runs.append((data, pos0, ops, answers, poss, problems))
+        reqs.append(hist_req(c, data, pos0, ops))
+    replies = ask_files(ctx, reqs)
+    for c, (data, pos0, ops, answers, poss, problems), rq, r in zip(cases, runs, reqs, replies):
+        if 'fatal' in r:
+            raise RuntimeError('driver: %s' % r['fatal'])
+        case = {'arch': c['arch'], 'le': c['le'], 'cls': c['cls'], 'pad': c['pad'], 'a': hx(c['a']), 'b': hx(c['b']),
+                'ta': c['ta'], 'tb': c['tb'], 'ops': ops}
+        ctx.out.case({k: v for k, v in case.items() if k not in ('ta', 'tb')})
+        ngen = sum(1 for o in ops if o['o'] == 'iter')
+        # interleaving: a `next` on a generator other than the one advanced by the previous `next`
+        nexts = [o['g'] for o in ops if o['o'] == 'next']
+        switches = sum(1 for x, y in zip(nexts, nexts[1:]) if x != y)
+        ctx.out.count('hist:len=%d:generators=%s:switches=%s' % (c['len'], min(ngen, 6) if ngen < 6 else '6+',
+                                                                 '0' if not switches else '1-5' if switches < 6 else '6+'))
+        ctx.out.count('hist:contents=%s/%s' % ('wf' if c['ta'] is not None else 'mutated', 'wf' if c['tb'] is not None else 'mutated'))
+        for o, a in zip(ops, answers):
+            kind = 'poke' if o.get('poke') else o['o']
+            res = 'stop' if a == 'stop' else 'err' if isinstance(a, dict) and 'err' in a else 'ok'
+            ctx.out.count('hist:op:%s:%s' % (kind, res))
+        if problems:
+            step, want, got = problems[0]
+            ctx.out.violation('property', 'hist', case, step=step, expect=want, got=got, model=r['steps'][step])
+            continue
+        d = hist_compare(ops, answers, poss, r['steps'])
+        if d is not None:
+            ctx.out.violation('correspondence', 'hist', case, step=d[0], what=d[1], got=d[2], model=d[3])
+
+
 def run(ctx):
     seeds = run_attr(ctx)
     run_attr_raw(ctx, seeds)
@@ -642,6 +1284,9 @@ def run(ctx):
     run_exidx_raw(ctx)
     run_bc(ctx)
     run_prel31(ctx)
+    run_file_attr(ctx)
+    run_file_ehabi(ctx)
+    run_hist(ctx)
 
 
 # ----------------------------------------------------------------------------- replay
@@ -656,6 +1301,11 @@ def replay(ctx, payload):
             r = ctx.driver.ask({'p': 'C20', 'k': 'attr_enc', 'arch': arch, 'le': le, 'sec': case['sec']})
             content = bytes.fromhex(r['bytes'])
             expect = r['expect'] if r['wf'] else None
+            if case.get('pattern') == 'unknown-tag':
+                image, off, size = wrap_attr(arch, le, cls, content)
+                impl = run_obs(lambda: observe_nested(image, arch, len(image) + 2))
+                res.update(impl=impl, expect={'err': 'elfParseError'}, fails=not (r['bad'] and impl == {'err': 'elfParseError'}))
+                return res
         else:
             content = bytes.fromhex(case['content'])
         image, off, size = wrap_attr(arch, le, cls, content)
@@ -669,8 +1319,9 @@ def replay(ctx, payload):
             expect = counts_of(expect) if expect is not None else None
         else:
             impl = run_obs(lambda: observe_nested(image, arch, cap))
-        fails = (impl != {'ok': expect}) if expect is not None else (impl != m['model'])
-        res.update(impl=impl, expect=expect, model=m['model'], fails=fails)
+        model = m['levelwise'] if pat == 'levelwise' and v.get('kind') == 'correspondence' else m['model']
+        fails = (impl != {'ok': expect}) if expect is not None and v.get('kind') != 'correspondence' else (impl != model)
+        res.update(impl=impl, expect=expect, model=model, fails=fails)
     elif stream in ('exidx', 'exidx_raw'):
         image = bytes.fromhex(case['image'])
         i = case['i']
@@ -684,6 +1335,38 @@ def replay(ctx, payload):
         else:
             fails = impl[0] != m['model'][0]
         res.update(impl=impl[0], expect=expect, model=m['model'][0], std=m['std'][0], fails=fails)
+    elif stream == 'file_attr':
+        rq = case['req']
+        r = ctx.driver.ask(rq)
+        q, a = rq['q'][case['qi']], r['q'][case['qi']]
+        data = bytes.fromhex(r['bytes'])
+        impl = impl_file_attr(data, q)
+        dom = bool(r['wf'] and a['dom'])
+        want = a['expect_res'] if 'expect_res' in a else {'ok': a.get('expect')}
+        fails = r['bytes'] != case['file'] or (impl != want if dom else impl != a['model'])
+        res.update(impl=impl, expect=want if dom else None, model=a['model'], fails=fails)
+    elif stream == 'file_ehabi':
+        rq = case['req']
+        r = ctx.driver.ask(rq)
+
+        class _Null:
+            def __getattr__(self, k):
+                return lambda *a, **kw: None
+
+        class _Ctx:
+            out = _Null()
+        hoff = lambda k: dict(rq['ast']['sections'][k]['hdr']['r'])['sh_offset']
+        c = {'le': rq['ast']['le'], 'cls': rq['ast']['cls'], 'mach': '?', 'e_type': 0, 'xprebytes': bytes(rq['xpre']),
+             'exoff': hoff(rq['i']), 'taboff': hoff(rq['x']) + rq['xpre']}
+        bad = judge_file_ehabi(_Ctx(), c, rq, r)
+        res.update(problems=[(k, w) for k, w, _, _, _ in bad], impl=bad[0][3] if bad else None, expect=bad[0][2] if bad else None,
+                   model=bad[0][4] if bad else None, fails=bool(bad) or r['bytes'] != case['file'])
+    elif stream == 'hist':
+        c = dict(case, a=bytes.fromhex(case['a']), b=bytes.fromhex(case['b']))
+        data, pos0, ops, answers, poss, problems = run_hist_case(c)
+        r = ctx.driver.ask(hist_req(c, data, pos0, ops))
+        d = hist_compare(ops, answers, poss, r['steps'])
+        res.update(problems=problems[:1], diff=d, impl=answers[d[0]] if d else None, fails=bool(problems) or d is not None)
     elif stream == 'bc':
         a = bytes.fromhex(case['hex'])
         r = ctx.driver.ask({'p': 'C20', 'k': 'bc', 'hex': case['hex']})
